@@ -7,26 +7,27 @@ VERIF = os.path.dirname(os.path.dirname(os.path.abspath(__file__)))
 
 BASE_NOTE = ("Trusted base: rustc nightly's type checker, MIR construction and Instance::try_resolve; the bluefacts "
              "serialisation (per-crate function floors); bluecheck's CFG algorithms; the hand-confirmed rule tables and "
-             "exception tables printed in the evidence.  Path-insensitive; explicit constructs only (MIR Assert terminators "
-             "for bounds/overflow are out of scope).  The behavioural remainder named in coverage.not_decided is NOT claimed.")
+             "exception tables printed in the evidence.  Path-insensitive.  Panic audits cover explicit constructs everywhere and, "
+             "on the decode paths of C09/C12/C13/C15/C16, the implicit slice/index bounds checks; overflow Asserts are out of scope.  The behavioural remainder named in coverage.not_decided is NOT claimed.")
 
 CLAIMS = {
     "C02": ("durability/ordering protocol + error discipline (MUSTPASS/ORDER/GUARDED/ORIGIN over MIR CFGs)",
             "Decides the protocol shape that crash safety needs on every path: ack only after the covering fdatasync, SST "
             "sync before use, manifest write<flush<sync<rollover, link<manifest<install, log retired last, no storage error "
             "dropped or unwrapped, no truncating open of data files.  Does not enumerate crash states.", "§4 C02"),
-    "C09": ("checksum-gate dominance, sanity-gate chain, bounded-allocation slice, R-ERR + explicit-panic audit over REACH(read entry points)",
+    "C09": ("checksum-gate dominance, sanity-gate chain, bounded-allocation slice, R-ERR + explicit-panic audit + implicit-bounds audit (array-bounds dataflow on byte buffers) over REACH(read entry points)",
             "Decides that every consumer of file bytes is dominated by the equal edge of its CRC comparison, that the "
             "final-block sanity gates dominate the first block load, that data-sized allocations are bounded, and that no "
-            "explicit panic / dropped error is reachable from the file-reading entry points.  Does not decide detection of "
-            "every flip nor implicit (bounds/overflow) panics.", "§4 C09"),
-    "C12": ("ORDER/GUARDED/ORIGIN over the log writer and reader CFGs; writer/reader discriminant table agreement; R-ERR + panic audit",
+            "explicit panic / dropped error is reachable from the file-reading entry points, and that every index / slice of a "
+            "byte buffer on those paths is in range by a dominating comparison on the same buffer (exceptions listed with "
+            "reasons).  Does not decide detection of every flip nor integer-overflow panics.", "§4 C09, §9.1"),
+    "C12": ("ORDER/GUARDED/ORIGIN over the log writer and reader CFGs; writer/reader discriminant table agreement; R-ERR + explicit-panic + implicit-bounds audit",
             "Decides: append acknowledges only after the covering fdatasync; frame CRC gate and header size bounds dominate "
             "the hand-out; the discriminants written equal those accepted and FIRST is completed only by SECOND; split "
             "records are written header/payload/pad/header/payload after the size checks; failures poison the builder; no "
             "error is lost or unwrapped in the reader.  Does not decide boundary arithmetic, the prefix property under "
             "truncation, or exactly-once under interleavings.", "§4 C12"),
-    "C13": ("ORDER/GUARDED/ORIGIN over Manifest::{open,_apply,rollover} and ManifestIterator::next; who-may-call on manifest files; HELD for the lock table",
+    "C13": ("ORDER/GUARDED/ORIGIN over Manifest::{open,_apply,rollover} and ManifestIterator::next; who-may-call on manifest files; HELD for the lock table; implicit-bounds audit of mani",
             "Decides: one append then sync_data before apply returns; rollover links a backup, writes the roll-up to a "
             "temporary and renames it; the reader delivers an edit only at its separator and drops a trailing partial edit; "
             "lines are CRC-gated; the directory lock is taken before reading and owned by the handle; only _apply/rollover "
@@ -54,11 +55,13 @@ CLAIMS = {
             "readers capture (mem, imm, version, timestamp) in one critical section; rollover swaps and drains in one critical "
             "section and clears imm after ingest; the readers' timestamp field is advanced only after the batch is inserted and "
             "at the head of the list.  Does not decide linearizability over all interleavings.", "§4 C06"),
-    "C18": ("ORDER/MUSTPASS/loop-body MUSTPASS/HELD/WRITES over do_work, WaitList and the LRU; lock-order graph of sync42",
+    "C18": ("ORDER/MUSTPASS/loop-body MUSTPASS/HELD/WRITES over do_work, WaitList and the LRU; wait-kind classification (filtering vs. plain condvar waits) with HELD at predicate writers; lock-order graph of sync42",
             "Decides hand-off and accounting pairing: every do_work exit unlinks then notifies, returns its own waiter's Output, "
             "the leader publishes every taken waiter's output before leaving and clears doing_work; wait-list head/tail change "
             "only under its lock in link/_unlink; LRU size and key map change together and nodes are freed after unmapping, "
-            "raw derefs only under the cache lock.  Does not decide exactly-once/ordering under all interleavings.", "§4 C18"),
+            "raw derefs only under the cache lock; a wait that re-waits on a private predicate is used only where every writer of "
+            "that predicate holds the mutex slept with, every other wait is re-entered in a loop.  Does not decide "
+            "exactly-once/ordering under all interleavings.", "§4 C18"),
     "C20": ("whole-program Acquires/MayWait summaries (call graph + typed Drop glue) -> lock-order graph cycles; condvar wait/notify discipline via HELD; ORDER/MUSTPASS for announcements and claim release",
             "Decides deadlock-freedom structure: no two locks are taken in both orders (one flag-gated pair checked and excepted), "
             "waits re-check their predicate inside one critical section, notifications cannot race a predicate check, the set of "
@@ -73,34 +76,38 @@ CLAIMS = {
             "Decides pipeline composition: every scan is Bounds(Pruning(Merging(components))) with the captured timestamp and "
             "the caller's bounds, no component (mem, imm, any L0 file, any overlapping deeper file) can be left out, the snapshot "
             "is captured atomically, exhaustion is tested through key().  Does not decide ordering/exactly-once/seek landing.", "§4 C03"),
-    "C11": ("SIBLINGS forwarding tables, GUARDED key-before-value tests, ORDER on the merging cursor's direction switch",
+    "C11": ("SIBLINGS forwarding tables and mirror-image rules (bounds next/prev, concat seek/next/prev, pruning seek/next), GUARDED key-before-value tests, ORDER on the merging cursor's direction switch",
             "Decides sibling consistency of the combinators: value() presence tests are tombstone tests (key known Some), wrappers "
             "forward m to m and never cross key/value, a direction switch advances every child before flipping the comparator "
-            "and rebuilding the heap, every seek positions every child, pruning filters by timestamp <= snapshot and recognises "
-            "tombstones.  Does not decide the combinator equivalences for all inputs.", "§4 C11"),
+            "and rebuilding the heap, every seek positions every child, pruning filters by timestamp <= snapshot, recognises "
+            "tombstones and accepts an entry only after screening it against skip_key (seek and next alike); the bounds cursor "
+            "re-checks both bounds after every step in both directions; the concatenating cursor leaves an exhausted child.  "
+            "Does not decide the combinator equivalences for all inputs.", "§4 C11"),
     "C07": ("who-frees analysis over Drop impls (GUARDED uniqueness test or pointee ownership), ESCAPE of the VersionRef, ORIGIN pipeline chains, ADT field-type facts",
             "Decides the ownership/escape structure a memory-safe snapshot needs: shared memory is freed only by the Arc's pointee or "
             "behind a uniqueness test, iterators hold a clone of the list's Arc, the returned scan cursor owns the VersionRef that "
             "pins its files, every scan pipeline prunes at the captured timestamp, cursors have no borrowed fields.  Does not "
             "decide which schedules would free memory under a live cursor.", "§4 C07"),
-    "C17": ("atomic-ordering operand table with identity-only slice for Relaxed loads, ORDER with cycles (initialise before publish), who-may-call for deref/free",
+    "C17": ("atomic-ordering operand table with identity-only slice for Relaxed loads, ORDER with cycles (initialise before publish), value slice of the level index (bottom-up linking), who-may-call for deref/free",
             "Decides publication order and confinement: Release stores / AcqRel CAS / Acquire loads on every pointer that can be "
             "dereferenced, the successor is stored into a new node before every linking CAS (on each retry, same observed value), "
-            "raw derefs only in node_ptr::deref, frees only in the last owner's Drop.  Does not decide lost inserts or ordered "
+            "levels are linked bottom-up starting at level 0, raw derefs only in node_ptr::deref, frees only in the last owner's Drop.  Does not decide lost inserts or ordered "
             "iteration under every interleaving.", "§4 C17"),
     "C14": ("constructor-discipline ORIGIN (with &mut-fill detection), operator table ORDER/MUSTPASS, const evaluation of SETSUM_PRIMES (primality), framing constants read from MIR",
             "Decides the representation-invariant discipline the algebra needs: every Setsum state comes from zero, add_state or "
             "the reducing conversion; inverted states only feed add_state; each operator reaches the right primitives with the "
             "right operands; the moduli are 8 distinct primes in (2^31, 2^32); puts and tombstones are framed with distinct tags "
             "plus key and timestamp.  Does not decide the algebraic laws over values or agreement with the published definition.", "§4 C14"),
-    "C15": ("field tables read from the macro-expanded MIR of every derived message (pack/pack_sz/stream/unpack agreement, WIRE_TYPE consts), TABLE reading of WireType tables, explicit-panic audit + R-ERR over REACH(decoders)",
+    "C15": ("field tables read from the macro-expanded MIR of every derived message (pack/pack_sz/stream/unpack agreement, WIRE_TYPE consts), TABLE reading of WireType tables, explicit-panic audit + R-ERR + implicit-bounds audit (array-bounds dataflow with same-buffer guards, interprocedural precondition of the unrolled varint decoder) over REACH(decoders)",
             "Decides table agreement and panic-freedom of explicit constructs: the derived encoders and decoder of each message "
             "mention the same (number, type, field) set with the type's wire type, numbers are unique, unknown fields are skipped; "
             "the wire-type tables are inverse; tags pack/unpack with << 3 | and >> 3 & 7 through validating constructors; no "
-            "explicit panic or dropped error is reachable from a decoder.  Does not decide round-trip equality or implicit "
-            "bounds/overflow panics.", "§4 C15"),
-    "C16": ("TABLE reading of to/from_discriminant (inverse bijection < 16), const evaluation of tuple_key2 tag ranges, explicit-panic audit over REACH(decoders)",
-            "Claims only: the decoders of both formats reach no explicit panic construct; the type/direction code tables are "
+            "explicit panic or dropped error is reachable from a decoder, and every index / slice expression on the decode path "
+            "is in range by a dominating comparison with the length of the same buffer (7 excepted sites with reasons).  Does "
+            "not decide round-trip equality or integer-overflow panics.", "§4 C15, §9.1"),
+    "C16": ("TABLE reading of to/from_discriminant (inverse bijection < 16), const evaluation of tuple_key2 tag ranges, explicit-panic audit + implicit-bounds audit with an inductive offset <= len type invariant over REACH(decoders)",
+            "Claims only: the decoders of both formats reach no explicit panic construct and index their buffers in range (parser "
+            "offsets never exceed the buffer, proved write by write); the type/direction code tables are "
             "inverse, four-bit and total; the compact format's tag ranges are ordered, 9 wide, disjoint and contiguous.  Order "
             "preservation, prefix contiguity and value round-trip are NOT decided.", "§4 C16"),
     "C10": ("ORDER/MUSTPASS/SIBLINGS over builder put/del/seal, ORIGIN of index keys and final-block fields, maximum encoded sizes computed from field tables of the expanded derives vs. evaluated size constants",
